@@ -1,5 +1,13 @@
+#[cfg(not(feature = "verif"))]
 use std::net;
+#[cfg(feature = "verif")]
+use crate::verif::net;
+#[cfg(not(feature = "verif"))]
 use std::time;
+#[cfg(feature = "verif")]
+use crate::verif::time;
+#[cfg(feature = "verif")]
+use crate::verif::rand;
 
 use crate::CHANNEL_COUNT;
 use crate::EndpointConfig;
@@ -616,6 +624,8 @@ impl Client {
         let mut frame_data_buf = [0; MAX_FRAME_SIZE];
 
         while let Ok(frame_size) = self.socket.recv(&mut frame_data_buf) {
+            #[cfg(feature = "verif")]
+            crate::verif::tick();
             if let Some(frame) = frame::Frame::read(&frame_data_buf[..frame_size]) {
                 self.handle_frame(frame, now_ms);
             }
@@ -698,6 +708,15 @@ impl Client {
                 }
             }
             _ => (),
+        }
+    }
+
+    #[cfg(feature = "verif")]
+    #[doc(hidden)]
+    pub fn verif_probe(&self) -> Option<crate::verif::Probe> {
+        match self.state {
+            State::Active(ref state) => Some(state.half_connection.verif_probe()),
+            _ => None,
         }
     }
 
